@@ -235,6 +235,7 @@ pub fn gen_body(rng: &mut Rng) -> BodyR {
             let total: usize = writes.iter().map(|w| w.len()).sum();
             BodyR::Custom { kind: CustomKind::Known(total as u64), ctype: if rng.chance(1, 2) { Some("application/x-custom".into()) } else { None }, writes }
         }
+        9 if rng.chance(1, 2) => BodyR::Custom { kind: CustomKind::Chunked, ctype: Some(ONE_SHOT.into()), writes: gen_writes(rng) },
         9 => BodyR::Custom { kind: CustomKind::Empty, ctype: None, writes: vec![] },
         _ => BodyR::Custom { kind: CustomKind::Chunked, ctype: if rng.chance(1, 3) { Some("text/x-stream".into()) } else { None }, writes: gen_writes(rng) },
     }
@@ -250,6 +251,7 @@ pub fn body_tag(b: &BodyR) -> &'static str {
         BodyR::JsonStreaming(_) => "json-streaming",
         BodyR::Form(_) => "form",
         BodyR::Multipart { .. } => "multipart",
+        BodyR::Custom { kind: CustomKind::Chunked, ctype: Some(c), .. } if c == ONE_SHOT => "custom-one-shot",
         BodyR::Custom { kind: CustomKind::Chunked, .. } => "custom-chunked",
         BodyR::Custom { kind: CustomKind::Known(_), .. } => "custom-known",
         BodyR::Custom { .. } => "custom-empty",
